@@ -36,6 +36,21 @@ Print Assumptions c17_redirects_exact.
    [flagged] := flags ++ already marked; in particular a second analysis after more templates were stored marks every
    includer of a previously marked template.  Instance: A flagged, B includes A, both marked by a first run; C, stored
    later, includes B and is marked by the second run. *)
+Theorem c17_reanalysis_is_analysis_from_scratch :
+  forall edges edges' F F' marks,
+    (forall e, In e edges -> In e edges') ->                 (* templates were added: the inclusion graph only grows *)
+    (forall m, In m marks -> Clo edges F m) ->               (* the marks in the store come from the first analysis ... *)
+    (forall f, In f F -> In f marks) ->                      (* ... and include what it was seeded with *)
+    forall x, Clo edges' (F' ++ marks) x <-> Clo edges' (F' ++ F) x.
+Proof. exact reanalysis_exact. Qed.
+Print Assumptions c17_reanalysis_is_analysis_from_scratch.
+
+(* analysing an analysed store again (same graph, marks = the closure) changes nothing *)
+Theorem c17_analysis_is_idempotent :
+  forall edges F marks, (forall m, In m marks <-> Clo edges F m) -> forall x, Clo edges marks x <-> Clo edges F x.
+Proof. exact closure_idempotent. Qed.
+Print Assumptions c17_analysis_is_idempotent.
+
 Example c17_reanalysis_example :
   let edges := [(0, 1); (1, 2)] in              (* B includes A, C includes B *)
   fst (propagate 3 edges [0; 1]) = [2; 0; 1] /\ forall x, In x (fst (propagate 3 edges [0; 1])) <-> Clo edges [0; 1] x.
@@ -52,7 +67,7 @@ Import String.
    docstrings, comments and layout).  A different digest means that the model is no longer known to describe the
    code; the check then reports the broken tie and looks for a failing input. *)
 Theorem c17_models_describe_the_current_source :
-  pin_analyze_templates = "6e2212fed7f132a7"%string.
+  pin_analyze_templates = "7a3f0ebb0279a088"%string.
 Proof. reflexivity. Qed.
 Print Assumptions c17_models_describe_the_current_source.
 End Pins.
